@@ -886,6 +886,27 @@ pub fn sparse_item(root: u64, k: u64, acc: &mut Acc, fps: &Distinct) {
             1 => rng.range(1, 5.min(p)),
             _ => rng.range(1, (p / 4).max(1)),
         };
+        // one item in three: an ordinary (short-period) reservation asked for thousands of
+        // budgets' worth of service, at and next to exact multiples of the budget
+        let huge = rng.chance(1, 3);
+        let (p, q) = if huge {
+            let p = rng.range(2, 40);
+            (p, rng.range(1, p))
+        } else {
+            (p, q)
+        };
+        let mut demands = demands;
+        if huge {
+            acc.counters.inc("probe.demand_of_1000_to_5000_budgets");
+            for _ in 0..6 {
+                let base = rng.range(1000, 5000) * q;
+                demands.push(match rng.below(4) {
+                    0 | 1 => base,
+                    2 => base + rng.below(q + 1),
+                    _ => base - rng.below(q.min(3) + 1),
+                });
+            }
+        }
         let sup = if rng.chance(1, 2) {
             SupDesc::Periodic(q, p)
         } else {
